@@ -12,7 +12,7 @@ LEVEL = ("decides writer/reader agreement of the DRCP text format from the two s
          'and every skeleton the writer can emit for a step kind must be in the language of the '
          "reader's grammar for that kind (K2, bounded); the literal token sets agree (K1); negation of"
          ' an atomic constraint is the involution GE(v)↔LE(v−1), EQ↔NE on the same variable (K3); the '
-         "literal definition line is written as the reader's grammar expects (K4). steps that differ "
+         "literal definition lines the writer can emit, with every atomic kind and comparison symbol, are in the language of the reader's line grammar (K5). steps that differ "
          'in which optional parts are present are written differently (K2 writer-injective); every '
          "integer type of the format's step / atomic types and every integer type the writer formats "
          'has a reader parser of the same type (K4 NUM-WIDTH). Does not decide equality of parsed '
@@ -429,6 +429,132 @@ def k4(led, rid, ctx):
     led.floor(rid, "integer types of the format", len(need), 3)
 
 
+def _segments(call, args):
+    """[str | ('ph', type, E)] of a fmt::Arguments construction"""
+    t = template_of(call, args)
+    if t is None:
+        return None
+    phs = []
+    if len(args) > 1:
+        arr = peel(args[1], calls=None)
+        items = arr.a if arr.k == "array" else []
+        for it in items:
+            it = peel(it, calls=None)
+            if it.k == "call" and it.a.name.startswith("new_"):
+                phs.append(((it.a.generics or ["?"])[0], it.b[0] if it.b else None))
+            else:
+                phs.append(("?", None))
+    out = []
+    k = 0
+    for part in re.split("(#)", t):
+        if part == "#":
+            out.append(("ph",) + (phs[k] if k < len(phs) else ("?", None)))
+            k += 1
+        elif part:
+            out.append(part)
+    return out
+
+
+def display_skeletons(p, ty, depth=0):
+    """text skeletons of `<ty as Display>::fmt` with nested crate types expanded"""
+    short = ty.split("<")[0].rsplit("::", 1)[-1]
+    if ty in ("bool",):
+        return {"true", "false"}
+    f = None
+    for imp in p.impls_of("Display"):
+        if (imp.get("self_adt") or "").rsplit("::", 1)[-1] == short:
+            f = p.impl_fn(imp, "fmt")
+    if f is None or depth > 4:
+        return {"#"}
+    out = set()
+    for path in SymExec(f, max_paths=200).run():
+        if path.diverged:
+            continue
+        cur = {""}
+        ok = True
+        for c, a, r in path.calls:
+            d = c.target_def or ""
+            if "fmt::Arguments" in (c.self_ty or "") or "fmt::Arguments" in d:
+                segs = _segments(c, a)
+                if segs is None:
+                    ok = False
+                    break
+                for sg in segs:
+                    if isinstance(sg, str):
+                        cur = {x + sg for x in cur}
+                    else:
+                        _, pty, pe = sg
+                        pty = (pty or "?").lstrip("&")
+                        if pty == "str" and pe is not None:
+                            strs = set()
+                            for x in pe.walk():
+                                if x.k == "const" and x.c is not None and x.b != "fn":
+                                    strs.add(x.c)
+                            sub = strs or {"#"}
+                        elif pty == "bool":
+                            sub = {"true", "false"}
+                        elif any((imp.get("self_adt") or "").rsplit("::", 1)[-1] == pty.split("<")[0].rsplit("::", 1)[-1]
+                                 for imp in p.impls_of("Display")):
+                            sub = display_skeletons(p, pty, depth + 1)
+                        else:
+                            sub = {"#"}
+                        cur = {x + y for x in cur for y in sub}
+        if ok:
+            out |= cur
+    return out or {"#"}
+
+
+def k5(led, rid, ctx):
+    """the literal-definition file: every line the writer can emit (a code followed by 1–2 atomic
+    constraints of every kind) is in the language of the reader's line grammar"""
+    p = ctx.drcp
+    w = p.method("LiteralDefinitions", "write")
+    rf = p.fn("literal_definitions::atomic_definition")
+    g = grammar(p, parser_expr(rf))
+    atoms = display_skeletons(p, "atomic::AtomicConstraint")
+    led.check(len(atoms) >= 5, rid, "atomic-skeletons", w.span, "%d atomic skeletons: %s" % (len(atoms), sorted(atoms)),
+              "could not recover the Display skeletons of AtomicConstraint (%s)" % sorted(atoms))
+    lines = set()
+    for path in SymExec(w, max_paths=400, max_visits=3).run():
+        if path.diverged:
+            continue
+        cur = {""}
+        ok = True
+        for c, a, r in path.calls:
+            d = c.target_def or ""
+            if "fmt::Arguments" in (c.self_ty or "") or "fmt::Arguments" in d:
+                segs = _segments(c, a)
+                if segs is None:
+                    ok = False
+                    break
+                for sg in segs:
+                    if isinstance(sg, str):
+                        cur = {x + sg for x in cur}
+                    else:
+                        pty = (sg[1] or "?").lstrip("&")
+                        if "AtomicConstraint" in pty:
+                            cur = {x + y for x in cur for y in atoms}
+                        else:
+                            cur = {x + "#" for x in cur}
+        failed = path.ret is not None and any(c.name == "from_residual" for c in path.ret.calls())
+        if ok and not failed:
+            lines |= cur
+    n = 0
+    bad = []
+    for text in sorted(lines):
+        for ln in text.split("\n"):
+            ln = ln.strip()
+            if not ln or "[" not in ln:
+                continue      # a code without atomics cannot be stored: `add` is the only writer of the map
+            n += 1
+            if len(ln) not in matches(g, ln, 0):
+                bad.append(ln)
+    led.check(not bad and n > 0, rid, "lits:writer⊆reader", rf.span, "%d line shapes accepted" % n,
+              "the reader of literal definitions rejects (or does not consume) a line the writer emits, e.g. %r "
+              "(%d of %d shapes)" % (bad[0] if bad else "", len(bad), n))
+    led.floor(rid, "literal-definition line shapes", n, 5)
+
+
 def run(ctx, led):
     run_rule(led, "K1", "TOKENS: the literal tokens of writer and reader agree", k1, ctx)
     run_rule(led, "K2", "per step kind, every output skeleton of the writer (optional parts 0/1, lists "
@@ -436,3 +562,4 @@ def run(ctx, led):
              "applies", k2, ctx)
     run_rule(led, "K3", "IntAtomicConstraint::not TABLE (involution) and comparison symbols", k3, ctx)
     run_rule(led, "K4", "NUM-WIDTH: every integer type of the format has a reader parser of the same type", k4, ctx)
+    run_rule(led, "K5", "literal-definition lines: writer shapes (all atomic kinds and comparison symbols) ⊆ reader grammar", k5, ctx)
